@@ -163,6 +163,16 @@ def seq_concat(a, b):
     c = [*a, *b]
     return (len(c), c[0], c[-1], c[:2], a + b)
 
+def seq_append(l, a):
+    l.append(a)
+    l.append(a + 1)
+    return (l, len(l), l[-1], l[0])
+
+def seq_extend(a, b):
+    a.extend(b)
+    a.extend([7])
+    return (a, len(a), a[-1])
+
 def seq_compare(a, b):
     return (a == b, len(a) == len(b), a[:1] == b[:1])
 
@@ -383,6 +393,8 @@ CASES = {
     "float_accumulate": [(0.1,), (1e308,)],
     "seq_slices": [([5, 6, 7, 8], 2), ([5, 6, 7], 0), ([5, 6, 7], 9), ([4], -1)],
     "seq_concat": [([1, 2], [3]), ([1], [2, 3, 4])],
+    "seq_append": [([1, 2], 5), ([], 0)],
+    "seq_extend": [([1], [2, 3]), ([], [4])],
     "seq_compare": [([1, 2], [1, 2]), ([1, 2], [1, 3]), ([1], [1, 2])],
     "seq_index_error": [([1, 2], 1), ([1, 2], 2), ([1, 2], -1)],
 }
@@ -460,7 +472,8 @@ def main():
 
     def contract_for(fname, args):
         try:
-            want, exc = native_ns[fname](*args), None
+            import copy as _copy
+            want, exc = native_ns[fname](*_copy.deepcopy(args)), None
         except Exception as e:          # noqa: BLE001
             want, exc = None, type(e).__name__
 
